@@ -365,6 +365,7 @@ def r6_scalar_literals(ctx):
     _literal_fields(ctx)
     _raw_empty_table(ctx)
     _text_cut_as_written(ctx)
+    K.escape_marks_removed(ctx)      # a quoted value with escaped quotes is the text as written
     _blank_line_cells(ctx)
     _value_pattern(ctx)
     fn = ctx.fn(NB, "BaseNode.cast_value")
